@@ -57,10 +57,21 @@ TIHRead   == Step(/\ Ev.op = "HRead"
 (* "history indexing is out of order, last: null") where this specification indexes history  *)
 (* 1 again.  Exactly that situation is accepted as pending; the harness ends the trace there. *)
 TIKnownMetaDeleted ==
-  Step(/\ Ev.op = "Update" /\ Ev.res = "fail" /\ Ev.kf = "index-metadata-deleted"
+  Step(/\ Ev.op \in {"Update", "Commit"}
+       /\ Ev.kf = "index-metadata-deleted"
        /\ ix.on /\ ix.inited /\ ix.last = -1
-       /\ Ev.j = Len(chain) /\ Len(chain) + 1 > cfg.maxDiff
+       /\ \/ Ev.op = "Update" /\ Ev.res = "fail" /\ Ev.j = Len(chain) /\ Len(chain) + 1 > cfg.maxDiff
+          \/ Ev.op = "Commit" /\ Ev.res = "err" /\ Ev.i \in 1..Len(chain)
        /\ UNCHANGED ivars)
+
+(* trie nodes of a historic state through HistoricNodeReader (trie-node histories are kept  *)
+(* completely and only together with complete state histories): same refusal rule, and the  *)
+(* state walked through the historic tries must be the requested one                         *)
+TIHNode   == Step(/\ Ev.op = "HNode"
+                  /\ UNCHANGED ivars
+                  /\ Ev.served = Served(Ev.w)
+                  /\ Ev.served => (IF ReadFails THEN Ev.world = <<>> ELSE Ev.world = Ev.w)
+                  /\ IObs)
 
 TIIndexRun == Step(Ev.op = "IndexRun" /\ IndexRun(Ev.ix.last) /\ IObs)
 
@@ -77,6 +88,6 @@ TIKnownShorten ==
        /\ UNCHANGED ivars)
 
 ITraceInit == TraceInit /\ ix = [on |-> FALSE, inited |-> FALSE, last |-> -1, set |-> <<>>]
-ITraceNext == TIKnownMetaDeleted \/ TIKnownShorten \/ TIIndexRun \/ TIReset \/ TIUpdate \/ TICommit \/ TIRecover \/ TIReopen \/ TIHRead
+ITraceNext == TIKnownMetaDeleted \/ TIKnownShorten \/ TIIndexRun \/ TIReset \/ TIUpdate \/ TICommit \/ TIRecover \/ TIReopen \/ TIHRead \/ TIHNode
 ITraceSpec == ITraceInit /\ [][ITraceNext]_<<ivars, l>>
 =============================================================================
